@@ -21,6 +21,9 @@ def GB(n=2):   # two independent branches and a join further down
                 procs=[src("s1", zoo.items(n, "a")), src("s2", zoo.items(n, "b")), cmd("p1", ["in"]), cmd("p10", ["in"]), cmd("j", ["l", "r"]), cmd("tail", ["x"])],
                 edges=[E("s1.out", "p1.in"), E("s2.out", "p10.in"), E("p1.out", "j.l"), E("p10.out", "j.r"), E("j.out", "tail.x")])
 
+def GM(n=2):   # process names with a regular-expression metacharacter and twins that differ only there: RunTo("c.v1") means that name, RunToRegex("^c.v1$") all three
+    return dict(name="GM", max=2, bufsize=2, procs=[src("s", zoo.items(n)), cmd("c.v1", ["in"]), cmd("c_v1", ["in"]), cmd("cxv1", ["in"]), cmd("post", ["in"])],
+                edges=[E("s.out", "c.v1.in"), E("s.out", "c_v1.in"), E("s.out", "cxv1.in"), E("c.v1.out", "post.in")])
 def bases(thorough):
     b = [zoo.Z1(n=2), zoo.Z3(n=2), zoo.Z6(n=2), GA(), GP(), GB(), zoo.Z16(n=2)]
     if thorough:
@@ -104,6 +107,11 @@ def check_C16(tier):
     for mode, inst0, tg in (("runto", zoo.Z15(), ["solo"]), ("runtoprocs", zoo.Z15(), ["solo"]), ("runto", leafp, ["note"]), ("runtoregex", leafp, ["note"])):
         d = dict(inst0); d["mode"] = mode; d["targets"] = tg
         if mode == "runtoregex": d["patterns"] = ["^note$"]
+        cases.append(("runto", d))
+    for mode, tg, pats in (("runto", ["c.v1"], None), ("runtoprocs", ["c.v1"], None), ("runto", ["c_v1"], None), ("runto", ["post", "cxv1"], None),
+                           ("runtoregex", ["c.v1", "c_v1", "cxv1"], ["^c.v1$"]), ("runtoregex", ["c.v1"], ["^c\\.v1$"])):
+        d = GM(); d["mode"] = mode; d["targets"] = tg
+        if pats: d["patterns"] = pats
         cases.append(("runto", d))
     # closed model on a sample of the RunTo cases (the static wiring is evaluated for all of them by expected())
     sample = [c for k, c in cases if k == "runto" and c["mode"] != "run"]
